@@ -139,3 +139,20 @@ prop(
               ("real_mac_honest_ok", 20), ("real_mac_tampered_batch_rejected_others_ok", 20),
               ("real_runs_with_out_of_order_requests", 20), ("real_runs_with_out_of_order_batch_release", 3)],
 )
+
+prop(
+    "C11",
+    level="exploration",
+    rule=("cases = real Query::execute runs on 3 helpers x S shards (S = 1..5) over HPKE-encrypted length-delimited inputs of 2..40 reports; "
+          "0..3 reports are present twice (copies in the same or in another shard's input, at seeded positions; exhaustively all (report, "
+          "position) pairs for inputs of 2..4 (quick) / 2..6 (thorough) reports in three placement styles); oracle: for each helper the shard "
+          "tag mod S computed independently from that helper's ciphertext must return DuplicateBytes and must not pass the duplicate check, "
+          "every other shard must not report a duplicate, pairwise distinct inputs are never rejected; executors: paused clock and 4-thread "
+          "tokio; distinct = (shards, input layout, duplicated reports); non-trivial = every (helper, shard) outcome was classified"),
+    assumptions=["hook H5 ends the query right after the duplicate check (a few runs per tier go without it and must give the same verdict)",
+                 "all helpers share one HPKE key registry (as in the repository's own tests)"],
+    shards={"quick": 16, "thorough": 16},
+    min_evaluations={"quick": 600, "thorough": 8000},
+    must_see=[("duplicate_rejected_on_expected_shards", 300), ("distinct_input_accepted", 60), ("dup_classes", 10)],
+    watchdog_s={"quick": 1200, "thorough": 7200},
+)
